@@ -594,6 +594,27 @@ func GenTypes(t *rapid.T, o *Opts) *Spec {
 			o.class("feature:embedded_struct_holding_a_union")
 		}
 	}
+	if o.Unions >= 1 && o.Embedded && o.TagVariety && rapid.IntRange(0, 3).Draw(t, "taggedEmbedNextToUnion") == 0 && !o.gated("tagged_embedded") {
+		// directed: a struct with a union field that also embeds a struct under a JSON name (not flattened)
+		var us []*tinfo
+		for _, ti := range g.types {
+			if ti.cat == "union" && ti.pkg == root && len(g.spec.Unions()[root.Path][ti.d.Name].Members) > 0 {
+				us = append(us, ti)
+			}
+		}
+		if len(us) > 0 {
+			u := us[rapid.IntRange(0, len(us)-1).Draw(t, "tenuUnion")]
+			exported := rapid.Bool().Draw(t, "tenuExported")
+			inner := &Decl{Kind: KStruct, Name: g.freshName(root, "tenuInner", exported), Fields: []*Field{
+				{Name: "Zby", Type: Basic("string")}, {Name: "Zversion", Type: Basic("int")}}}
+			ii := g.newDecl(root, root.Files[rapid.IntRange(0, 1).Draw(t, "tenuInnerFile")], inner, &tinfo{cat: "struct"})
+			outer := &Decl{Kind: KStruct, Name: g.freshName(root, "tenuOuter", true), Fields: []*Field{
+				{Name: inner.Name, Type: g.refTo(root, ii), Embedded: true, Tag: `json:"zaudit"`},
+				{Name: "Zshape", Type: g.refTo(root, u)}}}
+			g.newDecl(root, root.Files[0], outer, &tinfo{cat: "struct", hasUnion: true})
+			o.class("feature:tagged_embedded_struct_next_to_a_union_field")
+		}
+	}
 	if o.RecursiveUnions && rapid.IntRange(0, 2).Draw(t, "recursiveUnion") == 0 {
 		// a recursive union: a struct member holds a value of the union it belongs to (type Add struct{ Left, Right Expr })
 		type pair struct {
